@@ -413,13 +413,12 @@ Section Gov.
       else conclude cfg (fuel_of st) st i ST_REJECTED RS_WITHDRAWN
     end.
 
-  (** ZeroPermission(id).  [internal = true]: cross-invoked by a manager contract right after
-      SubmitProposal; [internal = false]: called by an account.  Repaired: reserved to the manager
-      contracts, and an approved / rejected proposal is left alone.  Unrepaired ([d_zero_open]):
-      neither check, an ended zero-permission proposal is concluded and Managed again by anybody. *)
-  Definition zero_perm cfg st (internal : bool) (i : nat) : res state :=
-    if negb internal && negb (d_zero_open cfg) then Fail 1
-    else match get_prop st i with
+  (** ZeroPermission(id): no caller check (managers call it right after SubmitProposal, accounts
+      may call it as well).  Repaired: an approved / rejected proposal is left alone.
+      Unrepaired ([d_zero_open]): no status check, an ended zero-permission proposal is concluded
+      and Managed again. *)
+  Definition zero_perm cfg st (i : nat) : res state :=
+    match get_prop st i with
     | None => Fail 3
     | Some p =>
       if h_zero (p_hdr p) && (d_zero_open cfg || (p_status p <? 2))
@@ -429,7 +428,7 @@ Section Gov.
 
   (** the tail of every manager flow: cross-invoke ZeroPermission, result ignored *)
   Definition zero_after cfg (st : state) (i : nat) : res state :=
-    match zero_perm cfg st true i with
+    match zero_perm cfg st i with
     | Ok s => Ok s
     | Fail _ => Fail 99      (* partial effects of a failed nested call are outside the model *)
     end.
@@ -592,7 +591,7 @@ Section Gov.
     | OLogoutNode c x => logout_node cfg st c x
     | OVote c i b => vote cfg st c i b
     | OWithdraw c i => withdraw cfg st c i
-    | OZero c i => zero_perm cfg st false i
+    | OZero c i => zero_perm cfg st i
     | OUpdStrategy c m z e => upd_strategy cfg st c m z e
     | OGuarded _ => Fail 1
     | OBad => Fail 9
